@@ -13,7 +13,7 @@ RULE = ("byte streams: uniformly random octets, random octets over an HTTP-ish a
         "fed to request and response receivers of every configuration and container in random fragments; oracle: no "
         "sanitizer abort / exception, every read ends with nothing left unless INVALID, receive() calls per read <= bytes+2; "
         "non-trivial = the stream is not a valid message; distinct = distinct (config, stream, partition)")
-TRUSTED_BASE = ["tools/cxx2lean.py + tools/cxx2lean_rx.py (translator of the parse_char / parse state machines, message_headers::parse, rx_chunk::parse, rx_request / rx_response::parse and request_receiver / response_receiver::receive + clear from the current C++ into Lean; the model is proved equal to the translation in ViaProofs/Trans; NOT translated and mapped by name to model functions: the header look-ups of message_headers (find, content_length, is_chunked, expect_continue, close_connection))", "Lean 4.33 kernel", "axioms: propext, Classical.choice, Quot.sound at most",
+TRUSTED_BASE = ["tools/cxx2lean.py + cxx2lean_rx.py + cxx2lean_enc.py (translator, from the current C++ into Lean, of the parse_char / parse state machines, message_headers::parse, rx_chunk::parse, rx_request / rx_response::parse, request_receiver / response_receiver::receive + clear, the header look-ups content_length / is_chunked / close_connection / expect_continue, the predicates keep_alive / missing_host_header / expect_continue / is_head / is_trace, and the encoders incl. are_headers_split and tx_response::is_valid; the model is proved equal to the translation in ViaProofs/Trans; mapped by name, not translated: std::unordered_map::find, strtol-based from_dec_string / from_hex_string, stringstream-based to_hex_string, std::string::find, std::transform(tolower))", "Lean 4.33 kernel", "axioms: propext, Classical.choice, Quot.sound at most",
                 "rx_driver built with ASan + UBSan + _GLIBCXX_DEBUG: memory safety of the C++ is observed, not proved",
                 "via_model driver"]
 ASSUMPTIONS = ["termination, progress and index arithmetic are theorems about the model; that the C++ computes the same function is "
